@@ -6,7 +6,7 @@
 //! while the polling thread carries on — see `fire_threaded`.
 
 use std::cell::{Cell, RefCell};
-use std::sync::atomic::{AtomicBool, Ordering};
+use std::sync::atomic::{AtomicBool, AtomicU64, Ordering};
 use std::sync::{Condvar, Mutex};
 use std::time::Duration;
 use std::collections::VecDeque;
@@ -77,11 +77,95 @@ thread_local! {
 }
 
 pub fn log(s: String) {
+    PROGRESS.fetch_add(1, Ordering::Relaxed);
+    if let Ok(mut g) = CUR.lock() {
+        g.log.push(s.clone());
+    }
     CTX.with(|c| c.borrow_mut().log.push(s));
+}
+
+/// The case being executed, mirrored outside the thread-local so that the watchdog can print it
+/// when the executing thread hangs (e.g. deadlocks on the crate's readiness lock).
+#[derive(Default)]
+pub struct CurCase {
+    pub header: String,
+    pub scripts: Vec<String>,
+    pub ops: Vec<String>,
+    pub log: Vec<String>,
+}
+
+pub static CUR: Mutex<CurCase> = Mutex::new(CurCase { header: String::new(), scripts: Vec::new(), ops: Vec::new(), log: Vec::new() });
+pub static PROGRESS: AtomicU64 = AtomicU64::new(0);
+
+pub fn mirror_case(header: &str, scripts: Vec<String>) {
+    PROGRESS.fetch_add(1, Ordering::Relaxed);
+    if let Ok(mut g) = CUR.lock() {
+        g.header = header.to_string();
+        g.scripts = scripts;
+    }
+}
+
+pub fn mirror_op(op: &str) {
+    PROGRESS.fetch_add(1, Ordering::Relaxed);
+    if let Ok(mut g) = CUR.lock() {
+        g.ops.push(op.to_string());
+    }
+}
+
+/// Watchdog: if the case makes no progress for `secs` seconds (a deadlock - every case takes
+/// milliseconds), print it as far as it got, with the marker `an 97 0` as its last event, and end
+/// the process with status 3.  The cases printed before it are complete.
+pub fn start_watchdog(secs: u64) {
+    std::thread::spawn(move || {
+        let mut last = PROGRESS.load(Ordering::Relaxed);
+        let mut idle = 0u64;
+        loop {
+            std::thread::sleep(Duration::from_millis(500));
+            let now = PROGRESS.load(Ordering::Relaxed);
+            if now != last {
+                last = now;
+                idle = 0;
+                continue;
+            }
+            idle += 1;
+            let started = CUR.lock().map(|g| !g.header.is_empty()).unwrap_or(false);
+            if idle >= 2 * secs && started {
+                let g = match CUR.lock() {
+                    Ok(g) => g,
+                    Err(p) => p.into_inner(),
+                };
+                let mut out = String::new();
+                out.push_str(&g.header);
+                out.push('\n');
+                for l in &g.scripts {
+                    out.push_str(l);
+                    out.push('\n');
+                }
+                for o in &g.ops {
+                    out.push_str("O ");
+                    out.push_str(o);
+                    out.push('\n');
+                }
+                for t in &g.log {
+                    out.push_str("T ");
+                    out.push_str(t);
+                    out.push('\n');
+                }
+                out.push_str("T an 97 0\nEND\n");
+                print!("{out}");
+                use std::io::Write;
+                let _ = std::io::stdout().flush();
+                std::process::exit(3);
+            }
+        }
+    });
 }
 
 pub fn reset() {
     settle();
+    if let Ok(mut g) = CUR.lock() {
+        *g = CurCase::default();
+    }
     CTX.with(|c| *c.borrow_mut() = Ctx::default());
     #[cfg(feature = "verif")]
     futures_concurrency::__verif::reset();
